@@ -327,7 +327,8 @@ def harnessJudges : List String :=
   ["idempotent", "final-untouched", "atomic", "order-independent", "update-consistent",
    "update-mismatch-refused", "update-output-consistent", "sighash-agrees", "mall-honoured",
    "extract-same-tx", "mode-honoured", "sighash-type-finalizes", "sighash-type-extracts",
-   "rawpkh-finalizes", "update-atomic", "byvalue-agrees", "update-unchecked-agrees"]
+   "rawpkh-finalizes", "update-atomic", "byvalue-agrees", "update-unchecked-agrees",
+   "interpreter-check-agrees", "raw-field"]
 
 def opsPsbtCore (kind op : String) (args : List String) : Option String :=
   match kind, op, args with
